@@ -53,7 +53,7 @@ func rulesC08(w *World, r *Report) {
 	w.ruleWrapperForwards(r, "C08.R3 read wrappers forward the decoder", "double")
 	w.ruleDecoderInverts(r, "C08.R5 the decoder rebuilds the encoded number bit for bit", "double")
 	w.ruleFloatKinds(r, "C08.R3 float kinds use the double codec on both sides")
-	w.ruleNoValueRejection(r, "C08.R4 the float field reader rejects nothing but a failed read", []string{"Float32", "Float64"})
+	w.ruleNoValueRejectionPX(r, "C08.R4 the float field reader rejects nothing but a failed read", []string{"Float32", "Float64"})
 	r.note("spec table digest %s", specDigest())
 }
 
